@@ -494,6 +494,102 @@ void run_meet4(bool th, const std::string &only_spec) {
       }
 }
 
+// ---- incremental closure over FIVE variables -------------------------------------------------------
+// Constraints v_i - v_j <= 1 over five variables are added one at a time: every set of four (in index
+// order and reversed) followed by every fifth constraint, i.e. also edges that link two already built
+// parts of the graph. The closed form is then observed through at(): with v_j == 0 added to a copy, the
+// bounds of every other variable must be exactly the shortest-path distances (Floyd-Warshall).
+const int M5V[5] = {VX, VY, VZ, VW, VV};
+void m5_check(const std::vector<std::pair<int, int>> &seq, const std::string &spec) {
+  vp::set_case(spec);
+  n_cases++;
+  const long INF = 1000000;
+  long d[5][5];
+  for (int i = 0; i < 5; i++)
+    for (int j = 0; j < 5; j++) d[i][j] = i == j ? 0 : INF;
+  for (auto &c : seq) d[c.first][c.second] = std::min(d[c.first][c.second], 1L);
+  for (int k = 0; k < 5; k++)
+    for (int i = 0; i < 5; i++)
+      for (int j = 0; j < 5; j++)
+        if (d[i][k] < INF && d[k][j] < INF) d[i][j] = std::min(d[i][j], d[i][k] + d[k][j]);
+  try {
+    std::unique_ptr<DomBox> A = DOM->make_top();
+    std::string what;
+    for (auto &c : seq) {
+      Op o;
+      o.kind = O_ASSUME;
+      o.c = cst({{1, M5V[c.first]}, {-1, M5V[c.second]}}, -1, C_LEQ);
+      A->apply(o, nullptr);
+      n_ops++;
+      what += std::string(var_name(M5V[c.first])) + "-" + var_name(M5V[c.second]) + "<=1; ";
+    }
+    if (A->is_bottom()) { report("bottom:satisfiable-but-bottom", spec, what); return; }
+    n_nonbottom++;
+    for (int j = 0; j < 5; j++) {
+      std::unique_ptr<DomBox> B = A->clone();
+      Op o;
+      o.kind = O_ASSUME;
+      o.c = cst({{1, M5V[j]}}, 0, C_EQ);
+      B->apply(o, nullptr);
+      n_ops++;
+      for (int i = 0; i < 5; i++) {
+        if (i == j) continue;
+        Itv it = B->at(M5V[i]);
+        n_queries++;
+        bool ub_ok = d[i][j] < INF ? (!it.ub_inf && it.ub == d[i][j]) : it.ub_inf;
+        bool lb_ok = d[j][i] < INF ? (!it.lb_inf && it.lb == -d[j][i]) : it.lb_inf;
+        if (it.bottom || !ub_ok || !lb_ok) {
+          report("at:not-exact-after-incremental-closure", spec,
+                 what + "=> " + A->print() + " ; with " + var_name(M5V[j]) + "==0, at(" + var_name(M5V[i]) + ")=" + it.str() + " expected [" +
+                     (d[j][i] < INF ? std::to_string(-d[j][i]) : "-oo") + "," + (d[i][j] < INF ? std::to_string(d[i][j]) : "+oo") + "]");
+          return;
+        }
+      }
+    }
+  } catch (std::runtime_error &e) {
+    report("abort", spec, e.what());
+  }
+}
+void run_inc5(bool th, const std::string &only_spec) {
+  CONTEXT = "inc5";
+  std::vector<std::pair<int, int>> all;
+  for (int i = 0; i < 5; i++)
+    for (int j = 0; j < 5; j++)
+      if (i != j) all.push_back({i, j});
+  int n = (int)all.size(); // 20
+  auto mkspec = [&](const std::vector<int> &idx) {
+    std::string s = "m5|" + DOMNAME + "|" + CFGNAME + "|";
+    for (size_t i = 0; i < idx.size(); i++) s += (i ? "." : "") + std::to_string(idx[i]);
+    return s;
+  };
+  if (!only_spec.empty()) {
+    auto f = vp::split(only_spec, '|');
+    std::vector<std::pair<int, int>> seq;
+    for (auto &t : vp::split(f[3], '.')) seq.push_back(all[atoi(t.c_str())]);
+    m5_check(seq, only_spec);
+    return;
+  }
+  uint64_t unit = 0;
+  for (int a = 0; a < n; a++)
+    for (int b = a + 1; b < n; b++) {
+      if (vp::past_deadline()) { vp::incomplete(DOMNAME + " " + CFGNAME + " inc5"); return; }
+      for (int c = b + 1; c < n; c++)
+        for (int e = c + 1; e < n; e++) {
+          if (!vp::mine(unit++)) continue;
+          for (int last = 0; last < n; last++) {
+            if (last == a || last == b || last == c || last == e) continue;
+            for (int rev = 0; rev < 2; rev++) {
+              std::vector<int> idx = rev ? std::vector<int>{e, c, b, a, last} : std::vector<int>{a, b, c, e, last};
+              std::vector<std::pair<int, int>> seq;
+              for (int k : idx) seq.push_back(all[k]);
+              // negative cycles cannot arise with positive weights; zero-weight issues neither
+              m5_check(seq, mkspec(idx));
+            }
+          }
+        }
+    }
+}
+
 int main(int argc, char **argv) {
   vp::parse_args(argc, argv);
   vp::install_crash_handler();
@@ -506,7 +602,7 @@ int main(int argc, char **argv) {
   if (!rp.empty()) {
     rf = vp::split(rp, '|');
     only = rf[1];
-    mode = rf[0] == "lift" ? "lifting" : (rf[0] == "m4" ? "meet4" : "exact");
+    mode = rf[0] == "lift" ? "lifting" : (rf[0] == "m4" ? "meet4" : (rf[0] == "m5" ? "inc5" : "exact"));
     if (rf[0] == "l" && rf.size() >= 5) { REPLAY_A = atol(rf[3].c_str()); REPLAY_B = atol(rf[4].c_str()); }
     vp::args().nslices = 1;
     vp::args().slice = 0;
@@ -516,7 +612,15 @@ int main(int argc, char **argv) {
     DOM = &e;
     DOMNAME = e.name;
     const std::vector<Config> &cfgs = th ? e.configs_thorough : e.configs_quick;
-    if (mode == "meet4") {
+    if (mode == "inc5") {
+      if (!(e.caps & (CAP_EXACT_ZONE | CAP_EXACT_OCT))) continue;
+      for (auto &cfg : cfgs) {
+        if (!rp.empty() && cfg.name != rf[2]) continue;
+        apply_config(cfg);
+        CFGNAME = cfg.name;
+        run_inc5(th, rp);
+      }
+    } else if (mode == "meet4") {
       if (!(e.caps & (CAP_EXACT_ZONE | CAP_EXACT_OCT))) continue;
       for (auto &cfg : cfgs) {
         if (!rp.empty() && cfg.name != rf[2]) continue;
